@@ -15,7 +15,8 @@ THEOREMS = ['C10_rule_scan_exact', 'C10_rule_scan_none', 'C10_lex_maximal_munch'
             'C10_lex_complete', 'C10_parse_yield', 'C10_ast_clause_count', 'C10_front_whole_input',
             'C10_parse_complete', 'C10_parse_complete_fuel', 'C10_parse_spec', 'C10_parse_none_spec', 'C10_parse_unambiguous',
             'C10_front_rejects_non_sentences', 'C10_front_spec', 'C10_front_none_spec', 'C10_canonical_tree_exists', 'C10_parse_canonical_exact', 'C10_canonical_unique',
-            'C10_term_fuel_monotone', 'C10_compile_whole_program', 'C10_front_compile_whole']
+            'C10_term_fuel_monotone', 'C10_compile_whole_program', 'C10_front_compile_whole',
+            'C10_compile_front_rejects_non_sentences', 'C10_compile_front_whole']
 RULE = ('source texts: (a) sentences derived at random from the grammar prolog.g4 itself (every alternative, including '
         '=(a,b), unary operators, name/arity, numeral-named compounds, foo(), [a,|T], nested parentheses, directives), '
         '(b) programs printed from random ASTs, both rendered with random spacing, line breaks and % comments, and (c) every '
@@ -183,6 +184,7 @@ def g_pe(rng, depth):
     if depth <= 0:
         return g_simple(rng, 1)
     r = rng.random()
+    if r < 0.04: return ['fail', ','] + g_pe(rng, depth - 1)        # dead code: the compiler drops what follows `fail`
     if r < 0.35: return g_simple(rng, rng.choice([1, 2]))
     if r < 0.45: return ['\\+'] + g_pe(rng, depth - 1)
     if r < 0.65: return g_pe(rng, depth - 1) + [','] + g_pe(rng, depth - 1)
@@ -373,7 +375,13 @@ def builtin_corpus():
         "p :- !, q ; r.", "p :- !.", "p :- fail ; true.", "p(fail).", "p :- failx.", "p :- true_x.", "true_x.", "p :- truely, failing.",
         "x :- 'it\\'s'('a\\'b').", "p('').", "p('\\'').", "p(''').", "p('a''b').", "p('\\\\').", "p('a\nb').", "p('%').", "p('a' 'b').",
         "p(a). % c1\n% c2\nq(b). % c3\n", "p(a). %\nq(b).", "p(a). % c1\r q(b).", "p(a). % c1\r\nq(b).\r\n", "p(%c\na).", "p('%c\na').",
-        "p :- q, % c\n r.", "p(007).", "p(0). p(00).", "p(1a).", "p(1A).", "p(1_).", "p(a1B_2).", "p(_1).", "p(__).", "p(_a_).",
+        "p :- q, % c\n r.", "p(007).",
+        # a compound term / goal named by a numeral is refused only where the compiler reaches it (dead code after fail is dropped)
+        "p:-fail,failx,failx(c),42(),!.failx.", "p :- fail, q(1(a)).", "p :- fail, 1(a).", "p :- (a -> fail), 1(a).", "p :- (fail ; a), 1(a).",
+        "p :- \\+ fail, 1(a).", "p :- fail ; 1(a).", "p :- (fail, 1(a)) ; b.", "p :- fail, X = 1(a).", "p :- fail, a/1.", "p :- fail, q(a/1).",
+        "p(1(a)) :- fail.", "p :- fail, (1(a) -> b ; c).", "p :- a, fail, 1(b).", "p :- !, fail, 1(b).", "p :- (a, fail), 1(b).",
+        "p :- fail -> 1(a) ; b.", "p :- (fail -> a ; b), 1(a).", "p :- fail, 1.", "p :- fail, X.", "p :- fail, q(1(a/2)).", "p :- fail, 007(_).",
+        "p :- fail, q(_, 1(_)). r(_).", "p :- true, 1(a).", "p :- fail, fail, 1(a).", "p :- (fail, a ; fail, 2(b)), c.", "p(0). p(00).", "p(1a).", "p(1A).", "p(1_).", "p(a1B_2).", "p(_1).", "p(__).", "p(_a_).",
     ]
     return [{'src': s, 'kind': 'corpus', 'base_clauses': 1} for s in srcs]
 
@@ -474,6 +482,14 @@ def compare(case, io, mo):
             return 'tie: the implementation reports a syntax error for a sentence of the grammar (which the visitor refuses)'
         return None
     prog = group(mfront[1])
+    if mtext[0] == 'none':
+        # the front end model has an AST, the compiler model refuses it: a compound term or goal named by a numeral (`1(a)`)
+        # reaches the intermediate code.  The implementation's visitor builds the same AST and its compiler raises.
+        if io['ast'][0] == 'ok' and io['ast'][1] != prog:
+            return 'the AST built by the implementation differs from the model AST (clauses omitted, altered or reordered)'
+        if _accepted(io):
+            return 'the compiler model refuses this text (a numeral-named compound term reaches the compiler) but compile_prolog_from_string returns code'
+        return None
     if io['ast'][0] != 'ok':
         return 'tie: the model accepts this text, the implementation front end raises %s' % io['ast'][1]
     if io['ast'][1] != prog:
@@ -569,6 +585,15 @@ def nontrivial(case, io):
 def describe(case):
     return {'source': case['src'], 'kind': case['kind']}
 
+def _shrunk(case, src):
+    """a smaller text is no longer what the generator promised (grammar-derived, printed from an AST, a non-sentence by
+    construction): it is re-labelled, so that only the conditions that hold for ANY text are applied to it"""
+    c = {k: v for k, v in case.items() if k not in ('expect_ast', 'must_reject')}
+    c['src'] = src
+    c['kind'] = 'shrunk'
+    c['shrunk_from'] = case.get('shrunk_from', case['kind'])
+    return c
+
 def shrink(case):
     src = case['src']
     toks = tokenize(src, keep_skipped=True)
@@ -577,21 +602,21 @@ def shrink(case):
         n = len(src)
         for a, b in ((0, n // 2), (n // 2, n), (0, n // 4), (n - n // 4, n)):
             if b > a:
-                c = dict(case); c['src'] = src[:a] + src[b:]; c.pop('expect_ast', None); c.pop('must_reject', None)
+                c = _shrunk(case, src[:a] + src[b:])
                 yield c
         for i in range(min(n, 40)):
-            c = dict(case); c['src'] = src[:i] + src[i + 1:]; c.pop('expect_ast', None); c.pop('must_reject', None)
+            c = _shrunk(case, src[:i] + src[i + 1:])
             yield c
         return
     # remove whole clauses (up to a full stop), then single tokens
     cuts = [i for i, t in enumerate(toks) if t == '.']
     start = 0
     for e in cuts:
-        c = dict(case); c['src'] = ''.join(toks[:start] + toks[e + 1:]); c.pop('expect_ast', None); c.pop('must_reject', None)
+        c = _shrunk(case, ''.join(toks[:start] + toks[e + 1:]))
         yield c
         start = e + 1
     for i in range(min(len(toks), 50)):
-        c = dict(case); c['src'] = ''.join(toks[:i] + toks[i + 1:]); c.pop('expect_ast', None); c.pop('must_reject', None)
+        c = _shrunk(case, ''.join(toks[:i] + toks[i + 1:]))
         yield c
 
 def distribution(cases, obs):
